@@ -397,6 +397,10 @@ def check_schedule(case):
     return classes, f
 
 
+EARLY_STOP = 1500  # executions of one bucket after which an already-failing bucket is abandoned
+BUCKET_CAP = 150000  # executions of one bucket (the pinned tree's largest has a few thousand)
+
+
 def explore(p2p, plan, prefix, classes, found):
     """Depth-first enumeration of every schedule whose canonical choice sequence starts with `prefix` (padded with 0s
     when the execution is shorter). Returns the number of executions."""
@@ -426,6 +430,11 @@ def explore(p2p, plan, prefix, classes, found):
                         cur[1:] = [pre, detail, list(choices), render(ex.sched.trace)]
         sched = S.next_schedule(choices, counts, d)
         if sched is None:
+            return nexec
+        if (found and nexec >= EARLY_STOP) or nexec >= BUCKET_CAP:
+            # a tree with (many) more scheduling points than the pinned one: stop this bucket. With failures in hand the
+            # verdict is already decided; without, the label makes the lost exhaustiveness visible in the evidence.
+            classes.append("exec/bucket-truncated-after-failures" if found else "exec/bucket-truncated-at-cap")
             return nexec
 
 
